@@ -85,6 +85,10 @@ func readHeader(data []byte) (packetType uint16, size uint32, packet []byte, err
 	binary.Read(r, binary.LittleEndian, &packetType)
 	r.Seek(4, io.SeekStart)
 	binary.Read(r, binary.LittleEndian, &size)
+	// the reported size includes the header
+	if size < 8 {
+		return packetType, size, nil, errors.New("reported packet size smaller than header")
+	}
 	if len(data) < int(size) {
 		return packetType, size, data[8:], errors.New("data incomplete, fragment received")
 	}
